@@ -487,7 +487,8 @@ PARTIAL = [
     "parametrisations: D13)",
     "termination of the Dykstra / projected-gradient loops before their iteration limits is not proved here (C11 proves it for the "
     "projected-gradient rule on L-smooth losses); dyk_stop_accuracy / proj_physical_lands_in_threshold_set say what a stop on the "
-    "criterion gives: in the last set, delta-close to the first — nothing about the distance to the intersection",
+    "criterion gives: in the last set, delta-close to the first — nothing about the distance to the intersection; at a stationary "
+    "state the result is the nearest physical point (dyk_stationary_is_nearest), but convergence to one (Boyle-Dykstra) is not proved",
     "that the implementation's elementary projections map into their sets is C04/C05's statement; here it is a hypothesis (hproj, hE, hI)",
     "the pgdb_* theorems assume the exact-arithmetic line search returns a positive step; float runs that end the search by underflow "
     "(alpha = 0, x_next = x_prev) are counted by the harness, not modelled",
